@@ -499,6 +499,36 @@ def run(rep, tier):
            "acknowledged, and after a restart db_meta.cbor does not list it (the only remedy, delete_collection, destroys the acknowledged documents)",
            pers[0].where())
 
+    # when the repair is the second kind (the open path persists the database metadata while a flag says the registry is not known
+    # durable), the flag is part of the protocol: raised before the creation's own persistence steps, and raised again by
+    # flush_metadata when the write it lowered the flag for is not known to have happened
+    def _flag_events(g, ops):
+        return [e for e in g.calls_named(r"Atomic::<bool>::(%s)$" % ops) if "registry_not_durable" in anda.recv_fields(g, e)]
+
+    def _const_bool(e, idx):
+        k = e.args[idx].get("k") if len(e.args) > idx and isinstance(e.args[idx], dict) else None
+        return None if not k else {"0": False, "1": True}.get(str(k.get("int")))
+    ocb = prog.async_body(oc) or oc
+    gated = [e for h_ in [ocb] + prog.closures_of(ocb) for e in _flag_events(h_, "load|swap")]
+    if not undone and gated:
+        raised = [e for e in _flag_events(rc, "store|swap|fetch_or") if _const_bool(e, 1) is True]
+        rep.ob("R01.7", "registry-flag-raised-before-persistence|register_created_collection",
+               bool(raised) and all(any(rc.dominates(r_.block, pe.block) for r_ in raised) for pe in pers),
+               "the open path persists the database metadata only while registry_not_durable is set, and register_created_collection does not set it before "
+               "its own flushes: when they fail, the retry's open finds the flag down and the registration never becomes durable", pers[0].where())
+        fmf = prog.fn(DB + "::flush_metadata")
+        fmb = prog.async_body(fmf) or fmf
+        rep.saw(fmb, len(fmb.events))
+        lowered = [e for e in _flag_events(fmb, "store|swap|fetch_and") if _const_bool(e, 1) is False]
+        again = [e for e in _flag_events(fmb, "store|swap|fetch_or") if _const_bool(e, 1) is True]
+        ok_ = True
+        if lowered:
+            # raised again somewhere behind the lowering (the write sits in an inner async block; its failure edge is where the code raises)
+            ok_ = any(fmb.can_reach([l_.block], [a_.block]) and a_.block != l_.block for l_ in lowered for a_ in again)
+        rep.ob("R01.7", "registry-flag-restored-on-failed-write|flush_metadata", ok_,
+               "flush_metadata lowers registry_not_durable (before its snapshot) and never raises it again behind the write: one failed metadata write on "
+               "the retry's open path and the next open no longer persists the registration", (lowered[0].where() if lowered else fmb.file))
+
     # removing an index: the metadata object written by cleanup_removed_index must already not name the index whose files it
     # deletes next (the three siblings agree: unregister in the live metadata, then clean up)
     rep.rule("R01.11", "remove_{btree,bm25,hnsw}_index take the index out of the live metadata before cleanup_removed_index persists the metadata and "
